@@ -145,6 +145,22 @@ def cleanup(paths):
             pass
 
 
+def add_wav_trailer(path):
+    """What many recorders and editors write: a LIST/INFO chunk after the audio (plus the RIFF pad byte when
+    the data chunk has an odd size).  The audio of the file is still its data chunk."""
+    import struct
+
+    with open(path, "r+b") as fp:
+        blob = fp.read()
+        pad = b"\0" if (len(blob) - 44) % 2 else b""
+        info = b"INFOISFT" + struct.pack("<I", 10) + b"vf-harness"
+        extra = pad + b"LIST" + struct.pack("<I", len(info)) + info
+        fp.seek(0, 2)
+        fp.write(extra)
+        fp.seek(4)
+        fp.write(struct.pack("<I", len(blob) + len(extra) - 8))
+
+
 def make_input(cfg, data):
     """-> (input, kwargs, cleanup list: paths or callables).  For the stdin kinds kwargs holds
     "_stdin": the object sys.stdin must be while the reader is constructed (pop it, use stdin_as)."""
@@ -207,6 +223,8 @@ def make_input(cfg, data):
             fp.setsampwidth(sw)
             fp.setnchannels(ch)
             fp.writeframes(data)
+        if cfg.get("wav_trailer"):
+            add_wav_trailer(path)
         return path, dict(large_file=True), [path]
     raise HarnessError(kind)
 
